@@ -123,6 +123,12 @@ type chain struct {
 	fresh   int
 	script  func(c *chain, i int, b *types.WorkObject) types.Transactions // corpus chains: extra inbound ETXs after block i
 	noMut   bool
+	// third strengthening round (budget.go)
+	nonce     map[int]uint64 // next nonce per sender while a pool round is generated
+	stuck     bool           // a sender was given a transaction that can never be included
+	drained   int            // senders that sent (almost) their whole balance away
+	noGeneric bool           // corpus chains: no generic traffic, only the scripted pool content
+	startup   bool           // corpus chains: start-up regime (see corpusCase.startTx)
 	// corpus chains: extra pool content before block i (added to what genPool generates)
 	poolScript func(c *chain, i int, r *hlib.Rng, head *types.WorkObject, base *big.Int) []*types.Transaction
 }
@@ -159,6 +165,10 @@ func (c *chain) genPool(r *hlib.Rng) {
 		k = 12 + r.Intn(14)
 	}
 	nonce := map[int]uint64{}
+	c.nonce = nonce
+	if c.noGeneric {
+		k = 0
+	}
 	var txs []*types.Transaction
 	var repl []quaiSpec // plain transactions of this round that may get a replacement attempt
 	for i := 0; i < k; i++ {
@@ -239,6 +249,14 @@ func (c *chain) genPool(r *hlib.Rng) {
 				spec.access = types.AccessList{{Address: to, StorageKeys: slotKeys(10)}}
 			}
 			label = fmt.Sprintf("call-%d", ct.kind)
+			if ct.kind == emitterKind { // SSTORE, then up to two ETXs with gas limits around the per-block budgets
+				B := etxBudget(head)
+				gs := []uint64{0, 21000, 100000, B / 3, B * 2 / 3, B, B + 1}
+				x := r.Intn(2)
+				spec.data = emitData(c.w.farQuai[2*x+r.Intn(2)].addr, gs[r.Intn(len(gs))], c.w.farQuai[2*(1-x)+r.Intn(2)].addr, gs[r.Intn(len(gs))])
+				spec.value = big.NewInt(int64(r.Intn(3)))
+				spec.gas = 300000
+			}
 		case 6: // nonce gap: stays queued
 			to := c.w.eoas[r.Intn(len(c.w.eoas))].addr
 			spec.to = &to
@@ -339,6 +357,10 @@ func (c *chain) genPool(r *hlib.Rng) {
 			k := r.Intn(len(txs) + 1)
 			txs = append(txs[:k], append([]*types.Transaction{tx}, txs[k:]...)...)
 		}
+	}
+	// transactions that fail in ApplyTransaction after the message was executed (budget.go)
+	if !c.noGeneric && r.Chance(25) {
+		txs = append(txs, c.burst(r, head, base, r.Intn(nBurstKinds), r.Intn(2))...)
 	}
 	// replacement attempts of Quai transactions: same sender and nonce, other content, with a price
 	// bump the pool accepts (>= PriceBump), an insufficient one, or none
@@ -567,11 +589,16 @@ func (c *chain) afterAppend(b *types.WorkObject) {
 // ---------- corpus of targeted chains (run first; chain index >= 1000) ----------
 
 type corpusCase struct {
-	name   string
-	blocks int
-	script func(c *chain, i int, b *types.WorkObject) types.Transactions
-	pool   func(c *chain, i int, r *hlib.Rng, head *types.WorkObject, base *big.Int) []*types.Transaction
-	noMut  bool // liveness direction only (no mutant battery on this chain)
+	name      string
+	blocks    int
+	script    func(c *chain, i int, b *types.WorkObject) types.Transactions
+	pool      func(c *chain, i int, r *hlib.Rng, head *types.WorkObject, base *big.Int) []*types.Transaction
+	noMut     bool // liveness direction only (no mutant battery on this chain)
+	noGeneric bool // no generic pool traffic: only what pool returns
+	// start-up regime: params.TimeToStartTx is set to this value while the chain runs (block gas limit 0, no
+	// pool transactions, inbound ETX COUNT rule instead of the gas rule); the chain gets no funding and no
+	// generated inbound ETXs, only what script returns, and every block gets the mutant battery
+	startTx uint64
 }
 
 var corpus = []corpusCase{
@@ -642,5 +669,65 @@ var corpus = []corpusCase{
 			}
 			k := corpusPatterns[i-4]
 			return c.qiCluster(r, head, base, k.p, k.equal)
+		}},
+	// Transactions that pass every pool check and fail in ApplyTransaction AFTER execution (budget.go): the
+	// per-block cross-region / cross-prime ETX gas budgets hit exactly, exceeded by one, exceeded alone, by one
+	// sender's consecutive nonces, both budgets interleaved, many small emitters, a contract that writes storage
+	// and then emits two ETXs, the value no longer affordable after the gas was bought; the block gas pool running
+	// dry mid-block for comparison. One burst per block and nothing else in the pool, so that the order in which
+	// the worker meets the members is the order of the burst. The skipped members stay in the pool and are met
+	// again by the following blocks. Whatever the worker does with a skipped transaction, the block must pass the
+	// node's own validation.
+	{name: "apply-fails-after-execution", blocks: 4 + len(corpusBursts) + 2, noMut: true, noGeneric: true,
+		script: func(c *chain, i int, b *types.WorkObject) types.Transactions { return nil },
+		pool: func(c *chain, i int, r *hlib.Rng, head *types.WorkObject, base *big.Int) []*types.Transaction {
+			if i == 2 || i == 3 { // deploy the emitter contract (twice: two instances)
+				data := initCode(contractKinds[emitterKind])
+				for s := range c.w.eoas { // the first sender whose creation address can be ground into the zone
+					in, _ := c.w.eoas[s].addr.InternalAndQuaiAddress()
+					n := c.n.z.Pool.Nonce(in)
+					ca := crypto.CreateAddress(c.w.eoas[s].addr, n, data, loc)
+					if _, err := ca.InternalAndQuaiAddress(); err != nil {
+						if ca, _, err = vm.GrindContract(c.w.eoas[s].addr, n, 1<<40, 0, crypto.Keccak256Hash(data), new(big.Int).Add(head.Number(common.ZONE_CTX), big.NewInt(1)), loc); err != nil {
+							continue
+						}
+					}
+					spec := quaiSpec{from: s, nonce: c.takeNonce(s), price: new(big.Int).Mul(base, big.NewInt(3)), gas: 400000, value: big.NewInt(0), data: data, access: types.AccessList{{Address: ca}}}
+					tx := c.w.signQuai(spec)
+					c.creates[tx.Hash()] = emitterKind
+					return []*types.Transaction{tx}
+				}
+				return nil
+			}
+			if i < 4 || i-4 >= len(corpusBursts) {
+				return nil
+			}
+			k := corpusBursts[i-4]
+			return c.burst(r, head, base, k.kind, k.x)
+		}},
+	// Start-up regime (block number <= TimeToStartTx): the block gas limit is 0, the only inbound ETXs are
+	// coinbases (no gas), and the minimum-inclusion rule counts ETXs (MinEtxCount .. MaxEtxCount) instead of
+	// their gas. 120 coinbase ETXs are delivered after block 0: the worker includes 51, 51 and 18 of them; the
+	// mutant battery offers every block with only a prefix of them (fully re-rooted when Process lets the body
+	// through).
+	{name: "startup-etx-count-rule", blocks: 5, noGeneric: true, startTx: 1000,
+		script: func(c *chain, i int, b *types.WorkObject) types.Transactions {
+			if i != 0 {
+				return nil
+			}
+			r := hlib.NewRng(77)
+			var out types.Transactions
+			for k := 0; k < 120; k++ {
+				var to common.Address
+				if k%3 == 0 {
+					to = c.w.qis[k%2].addr
+				} else {
+					to = c.w.eoas[k%len(c.w.eoas)].addr
+				}
+				data := append([]byte{byte(k % 4)}, r.Bytes(32)...)
+				out = append(out, etx(&types.ExternalTx{To: &to, Gas: 21000, Value: big.NewInt(int64(1000 + k)), EtxType: types.CoinbaseType,
+					OriginatingTxHash: originHash(r, loc), ETXIndex: uint16(k % 4), Sender: to, Data: data}))
+			}
+			return out
 		}},
 }
